@@ -334,7 +334,8 @@ func VerifC16_NotFound() {
 		return
 	}
 	verifAssert("notfound:body-written", w.buf.Len() > 0)
-	ct := w.h.Get("Content-Type")
+	// the header as committed with the status line, not the live map
+	ct := w.sent.Get("Content-Type")
 	if accept == "application/xml" {
 		verifAssert("notfound:negotiated-xml", ct == "application/xml")
 	} else {
